@@ -1137,6 +1137,18 @@ func loadedCell(v ssa.Value) ssa.Value {
 // and its closures: a load of a captured cell is identified with the cell.
 func valueOrCell(v ssa.Value) ssa.Value {
 	v = strip(v)
+	// a parameter of a helper invoked from exactly one place stands for the argument given there
+	for k := 0; k < 4; k++ {
+		p, ok := v.(*ssa.Parameter)
+		if !ok {
+			break
+		}
+		arg := uniqueSiteArg(p)
+		if arg == nil {
+			break
+		}
+		v = strip(arg)
+	}
 	if c := loadedCell(v); c != nil {
 		return c
 	}
